@@ -392,6 +392,7 @@ pub fn run_c20(tier: Tier) -> i32 {
         alpha2.push(Act::blk(15));
         let mut c2 = c.clone();
         c2.n_vamms = 2;
+        c2.holding_cap = 0;
         let mut e = Exp::new("caps, two vAMMs", c2, alpha2, vec![vec![]], tier.pick(3, 4));
         e.traders = T2.to_vec();
         exps.push(e);
